@@ -379,6 +379,17 @@ var pathShapes = func() []pathShape {
 		{"country differs", "NTRUS-12345", func() *der.Node { return orgExt("NTR", "DE", "", "12345") }},
 		{"state in attribute only", "NTRUS+CA-12345", func() *der.Node { return orgExt("NTR", "US", "", "12345") }},
 		{"state consistent", "NTRUS+CA-12345", func() *der.Node { return orgExt("NTR", "US", "CA", "12345") }},
+		// the two places spell ONE registration differently: letter case, surrounding blanks, the state as a full
+		// ISO 3166-2 code (country prefix repeated), lower-case country / state / scheme
+		{"reference differs in case only", "NTRIT-HRB4567890", func() *der.Node { return orgExt("NTR", "IT", "", "hrb4567890") }},
+		{"reference differs in case only (upper in extension)", "NTRIT-hrb4567890", func() *der.Node { return orgExt("NTR", "IT", "", "HRB4567890") }},
+		{"reference padded with blanks", "NTRUS-12345", func() *der.Node { return orgExt("NTR", "US", "", " 12345 ") }},
+		{"state as full ISO 3166-2 code", "NTRUS+CA-12345", func() *der.Node { return orgExt("NTR", "US", "US-CA", "12345") }},
+		{"state as country prefix only", "NTRUS+CA-12345", func() *der.Node { return orgExt("NTR", "US", "US-", "12345") }},
+		{"state in lower case", "NTRUS+CA-12345", func() *der.Node { return orgExt("NTR", "US", "ca", "12345") }},
+		{"country in lower case", "NTRUS-12345", func() *der.Node { return orgExt("NTR", "us", "", "12345") }},
+		{"scheme in lower case", "NTRUS-12345", func() *der.Node { return orgExt("ntr", "US", "", "12345") }},
+		{"VAT reference differs in case only", "VATDE-ab123456789", func() *der.Node { return orgExt("VAT", "DE", "", "AB123456789") }},
 		{"PSD consistent", "PSDDE-BAFIN-123456", func() *der.Node { return orgExt("PSD", "DE", "", "BAFIN-123456") }},
 		{"PSD reference differs", "PSDDE-BAFIN-123456", func() *der.Node { return orgExt("PSD", "DE", "", "BAFIN-999999") }},
 		{"PSD attribute unparseable as PSD", "PSDDE-123456", func() *der.Node { return orgExt("PSD", "DE", "", "X-123456") }},
